@@ -34,7 +34,8 @@ META = {
         "thorough": {"lexer_symbolic_str": "len <= 3", "token_sequences": "<= 3 tokens over the 30-token alphabet with gaps; <= 4 tokens over the 20-token alphabet (gaps ' ' only)",
                      "shaped_templates": "as quick with 3 holes where the template has them"},
     },
-    "out_of_scope": ["strings longer than the token bound that are not instances of a shaped template", "identifiers / string "
+    "out_of_scope": ["strings longer than the token bound that are not instances of a shaped template or of a word template "
+                     "(one word of <= 3 (quick) / 4 (thorough) characters over 10 character classes in 8 evaluated positions)", "identifiers / string "
                      "literals as symbolic text beyond the lexer-only sub-check", "absolute /module/function references",
                      "\\\\s is modelled as ASCII whitespace in the regex queries (word-boundary assertions dropped: over-approximation, "
                      "sound for the emptiness question)"],
@@ -328,7 +329,51 @@ def build(case):
 
         return int_harness(run, ["tsel", "a", "b"])
 
+    if kind == "pairs":
+        # two selectors one after the other in one interpreter: what the first leaves in the interning / caching layers
+        # must not change the verdict on the second (they share nested calls, differ in focus marks)
+        def run(asel, bsel):
+            A = PAIR_STRINGS[pick(asel, len(PAIR_STRINGS))]
+            B = PAIR_STRINGS[pick(bsel, len(PAIR_STRINGS))]
+            if twin:
+                require(not (A != B), "vacuity twin", {"fp": "twin"})
+                return
+            with NoTracing():
+                check_string(A, require, "C18:pairs:first")
+                check_string(B, require, "C18:pairs:second")
+
+        return int_harness(run, ["a", "b"])
+
+    if kind == "words":
+        # one word, spelled character by character, in every position where the evaluator interprets words
+        # (function, variable, category, = value, ~ predicate)
+        tmpl = WORD_TEMPLATES[p["template"]]
+        L = p["len"]
+
+        def run(*a):
+            chars = []
+            for x in a:
+                k = pick(x, len(WORD_CHARS) + 1)
+                if chars and chars[-1] is None:
+                    assume(k == len(WORD_CHARS))
+                chars.append(None if k == len(WORD_CHARS) else WORD_CHARS[k])
+            w = "".join(c for c in chars if c is not None)
+            assume(len(w) >= 1)
+            if twin:
+                require(not (len(w) == L), "vacuity twin", {"fp": "twin"})
+                return
+            with NoTracing():
+                check_string(tmpl.replace("{W}", w), require, "C18:words")
+
+        return int_harness(run, [f"c{i}" for i in range(L)])
+
     raise ValueError(kind)
+
+
+PAIR_STRINGS = ["f(!x) > g(!!y)", "g(!!y)", "f > g(!!y)", "f(x) > g(!!y)", "f(!x, !!y)", "f(!!x)", "f(!x) > g(y)", "f > g(!y)",
+                "f(!!x) > g(!y)", "g(!y)", "f(!x) > g(!y)", "f(x, g(!!y))", "f(!x, g(!!y))", "f(#bad) > g(!y)", "f > g(y)", "f(x) > g(y)"]
+WORD_CHARS = ["1", ".", "-", "a", "#", "@", "'", "e", "_", "0"]
+WORD_TEMPLATES = ["f(x={W})", "f > x:{W}", "{W} > x", "f(x~{W})", "f > {W}", "f({W}) > x", "f(x) as {W}", "f > $x:{W}"]
 
 
 def cases(tier, seed):
@@ -340,6 +385,13 @@ def cases(tier, seed):
           {"id": "x:hashvars:twin", "params": {"kind": "hashvars"}, "vacuity_twin": True, "stop_on_refute": True, "budget_s": 60},
           {"id": "x:shaped", "params": {"kind": "shaped", "holes": 2}, "budget_s": 3000 if th else 250},
           {"id": "x:shaped:twin", "params": {"kind": "shaped", "holes": 2}, "vacuity_twin": True, "stop_on_refute": True, "budget_s": 60}]
+    for ti in range(len(WORD_TEMPLATES)):
+        cs.append({"id": f"x:words:{WORD_TEMPLATES[ti]}", "params": {"kind": "words", "template": ti, "len": 4 if th else 3},
+                   "budget_s": 3000 if th else 250})
+    cs.append({"id": "x:words:twin", "params": {"kind": "words", "template": 0, "len": 2}, "vacuity_twin": True, "stop_on_refute": True,
+               "budget_s": 60})
+    cs.append({"id": "x:pairs", "params": {"kind": "pairs"}, "budget_s": 600})
+    cs.append({"id": "x:pairs:twin", "params": {"kind": "pairs"}, "vacuity_twin": True, "stop_on_refute": True, "budget_s": 60})
     alpha = ALPHABET if th else QUICK
     for first in range(len(alpha)):
         cs.append({"id": f"x:tokens:first={alpha[first]}", "params": {"kind": "tokens", "n": 3, "first": first, "gaps": True,
